@@ -352,6 +352,51 @@ def _merge_chains(prog, rep, R, c):
               f"returns {ast.unparse(rets[-1].value) if rets else None}")
 
 
+def merge_transforms_by_evaluation(prog, rep, R, site) -> bool:
+    """merge_transforms decided by partial evaluation (shapeexec) on nested Transformed shapes of depth 1..4 whose
+    bijections are members or (nested) Chains: the result must be Transformed(innermost base, K) with the members of K,
+    read in order, equal to the bijections innermost level first (the order in which sampling applies them).  False
+    when the method is outside the evaluated subset."""
+    from .shapeexec import (BaseLeaf, Budget, ChainNode, Evaluator, Leaf, Raised, TransNode, Unsupported, build, inorder)
+    grid = [["a"], ["a", "b"], ["a", "b", "c"], ["a", "b", "c", "d"], [["a", "b"], "c"], ["a", ["b", "c"]],
+            [["a", "b"], ["c", "d"], "e"], ["a", ["b", ["c", "d"]], "e"], [["a"], "b", ["c"]], [[["a", "b"], "c"], "d", ["e", "f"]]]
+    results = []
+    for levels in grid:          # levels[0] is the innermost bijection
+        leaves = {}
+        node = BaseLeaf("base")
+        want = []
+        for lv in levels:
+            bij, leaves = build(lv, leaves) if isinstance(lv, list) else (build([lv], leaves)[0].children[0], leaves)
+            want.extend(inorder(bij) if isinstance(bij, ChainNode) else [bij])
+            node = TransNode(node, bij)
+        try:
+            res = Evaluator(prog, module=prog.cls(TRANSFORMED).module).call_method(node, "merge_transforms")
+        except (Unsupported, TypeError):
+            return False
+        except (Budget, RecursionError):
+            rep.undecided(R, site, "merge_transforms:result", f"evaluation on {node!r} does not finish")
+            return True
+        except Raised as e:
+            rep.violated(R, site, "merge_transforms:result", f"{node!r}.merge_transforms() raises {e.exc}")
+            return True
+        results.append((node, want, res))
+    for node, want, res in results:
+        ok = isinstance(res, TransNode) and isinstance(res.base, BaseLeaf)
+        if ok:
+            k = res.bijection
+            got = inorder(k) if isinstance(k, ChainNode) else [k]
+            ok = len(got) == len(want) and all(g is w for g, w in zip(got, want))
+        if not ok:
+            rep.violated(R, site, "merge_transforms:result",
+                         f"{node!r}.merge_transforms() evaluates to {res!r}: expected the innermost base with the bijections "
+                         f"{want!r} in this order (innermost level first)")
+            return True
+    how = f"by partial evaluation on {len(results)} nested shapes: innermost base, bijections innermost level first"
+    for k2 in ("start", "step", "until-base", "result"):
+        rep.holds(R, site, f"merge_transforms:{k2}", how, nontrivial=(k2 == "result"))
+    return True
+
+
 def rule_merge_transforms(prog: Program, rep: Report, R: str):
     rep.rule(R, "merge_transforms collects the bijection of every nesting level outermost-first (one per "
                 "iteration, taken from the level being visited), reverses once, builds "
@@ -360,6 +405,8 @@ def rule_merge_transforms(prog: Program, rep: Report, R: str):
     owner, fn = prog.method(TRANSFORMED, "merge_transforms")
     _OWNER.update(fn=fn, qual=f"{owner.qualname}.merge_transforms")
     site = method_site(prog, c, "merge_transforms")
+    if merge_transforms_by_evaluation(prog, rep, R, site):
+        return
     body = [s for s in fn.body if not (isinstance(s, ast.Expr) and isinstance(s.value, ast.Constant))]
     whiles = [s for s in body if isinstance(s, ast.While)]
     recursive = [n for n in _find(fn, ast.Call) if isinstance(n.func, ast.Attribute) and n.func.attr == "merge_transforms"]
